@@ -2501,7 +2501,10 @@ class Model:
             # Convert from duration to equivalent probability
             elif par.units == FS.QUANTITY_TYPE_DURATION:
                 try:
-                    converted_frac = self.dt / (transition * par.timescale)
+                    # A vanishingly small duration (e.g. a denormal value returned by a parameter function) overflows to inf, and rescaling
+                    # the outflows then gives inf*0 = NaN. Any fraction above 1 empties the compartment, so cap it at a large finite value
+                    with np.errstate(over="ignore"):
+                        converted_frac = min(self.dt / (transition * par.timescale), 1e100)
                 except Exception as e:
                     raise ModelError(f"Error when converting the parameter {par} to a per timestep value.") from e
                 for link in par.links:
